@@ -2,6 +2,7 @@ package main
 
 func controlsC18() []Control {
 	return []Control{
+		{Name: "bot remembers the view time in a copy of itself (value receiver)", Expect: "R8", Mutate: replaceIn("(*botRunner).UpdateTableState", "func (br *botRunner) UpdateTableState(", "func (br botRunner) UpdateTableState(", 0)},
 		{Name: "fold goes to the adapter remembered when the bot was attached", Expect: "R5", Mutate: withDecl(replaceIn("(*actions).Fold", "return a.actor.GetTable().Fold(a.playerID)", "return rememberedAdapter(a).Fold(a.playerID)", 0), "var firstAdapter Adapter\n\nfunc rememberedAdapter(a *actions) Adapter {\n\tif firstAdapter == nil {\n\t\tfirstAdapter = a.actor.GetTable()\n\t}\n\treturn firstAdapter\n}")},
 		{Name: "every view cancels the planned move", Expect: "R7", Mutate: replaceIn("(*botRunner).UpdateTableState", "\tbr.tableInfo = table\n", "\tbr.tableInfo = table\n\tbr.timebank.Cancel()\n", 0)},
 		{Name: "bot time bank re-created when the runner is attached", Expect: "R7", Mutate: replaceIn("(*botRunner).SetActor", "\tbr.actor = a\n", "\tbr.actor = a\n\tbr.timebank = timebank.NewTimeBank()\n", 0)},
